@@ -53,8 +53,11 @@ func c19Gen(class string, seed uint64, tier string) *vfScenario {
 			f.A, f.B = 3, int64(rng.IntN(4))
 		case x < 90:
 			f.A = 4
-		default:
+		case x < 95:
 			f.A, f.B, f.S = 5, int64(rng.IntN(40)), fmt.Sprint(1+rng.IntN(len(c19ExtLists)-1))
+		default:
+			// the payload ends early but the frame is consistent (length prefix = bytes that follow)
+			f.A, f.B, f.S = 6, int64(9+rng.IntN(70)), fmt.Sprint(1+rng.IntN(len(c19ExtLists)-1))
 		}
 		sc.Faults = []vfFault{f}
 		return sc
@@ -110,6 +113,12 @@ func c19Enumerate(tier string, base uint64, emit func(*vfScenario)) {
 		}
 		for cut := 0; cut < full; cut += step {
 			mk(vfFault{A: 2, B: int64(cut), S: fmt.Sprint(li)})
+		}
+		// ... and with a consistent length prefix, every byte (extension lists of ordinary length)
+		if full <= 400 {
+			for cut := 9; cut < full; cut++ {
+				mk(vfFault{A: 6, B: int64(cut), S: fmt.Sprint(li)})
+			}
 		}
 		for _, v := range []uint32{0, 1, 2, 3, 4, 5, 0x80000003, 0xffffffff} {
 			mk(vfFault{A: 0, B: int64(v), S: fmt.Sprint(li)})
@@ -191,6 +200,29 @@ func c19Client(r *vfRun) {
 		binary.BigEndian.PutUint32(reply, []uint32{0, 256*1024 + 1, 0x7fffffff, 0xffffffff}[f.B%4])
 	case 4:
 		closeAfter = true
+	case 6:
+		full := c19Version(3, exts)
+		cut := int(f.B)
+		if cut < 9 {
+			cut = 9
+		}
+		if cut >= len(full) {
+			reply = full
+			wellFormedV3 = true
+			break
+		}
+		reply = append([]byte(nil), full[:cut]...)
+		binary.BigEndian.PutUint32(reply, uint32(cut-4))
+		// well-formed only if the cut falls between two pairs: then exactly the pairs before it were advertised
+		off := 9
+		for k, e := range exts {
+			if off == cut {
+				exts = exts[:k]
+				wellFormedV3 = true
+				break
+			}
+			off += 4 + len(e[0]) + 4 + len(e[1])
+		}
 	case 5:
 		// an extension pair whose first string length runs past the packet
 		reply = c19Version(3, exts)
